@@ -20,6 +20,7 @@ func init() {
 }
 
 func runC20(c *Ctx) {
+	defer checkRequestGetters(c, "C20.R11")
 	defer checkConfigGetters(c, "C20.R8", "GetSendDebugMessagesToClients", "GetUseLegacyErrorFormat")
 	c20R1(c)
 	c20R2(c)
@@ -28,6 +29,8 @@ func runC20(c *Ctx) {
 	c20Sanitize(c)
 	c20Codes(c)
 	c20Description(c)
+	checkRevocationWriter(c, "C20.R9")
+	c20UnknownErrorText(c)
 }
 
 // ------------------------------------------------------------------ R1
